@@ -1,6 +1,7 @@
 import ASV.Drv.J
 import ASV.Spec.Serial
 import ASV.Spec.ProtDna
+import ASV.Spec.SerialQual
 namespace ASV.Drv.C10
 open Lean ASV ASV.Drv ASV.Serial
 
@@ -129,6 +130,52 @@ def areasSorted (r : Rec) : Bool :=
 
 def optRec (j : Json) (k : String) : R (Option Rec) := optOf recOfJson j k
 
+def annotOfJson (j : Json) : R (String × String × String × Option String) := do
+  return (← strF j "fn", ← strF j "tool", ← strF j "description", ← optOf asStr j "product")
+def annotToJson (a : Annot) : Json :=
+  jObj [("fn", Json.str a.fn.label), ("tool", Json.str a.tool), ("description", Json.str a.description),
+        ("product", optToJson Json.str a.product)]
+def smOfJson (j : Json) : R SMDom := do
+  return ⟨← strF j "name", ← strF j "evalue", ← strF j "bitscore", ← strF j "nseeds", ← strF j "tool"⟩
+def smToJson (d : SMDom) : Json :=
+  jObj [("name", Json.str d.name), ("evalue", Json.str d.evalue), ("bitscore", Json.str d.bitscore),
+        ("nseeds", Json.str d.nseeds), ("tool", Json.str d.tool)]
+
+/-- the text inside the class-specific qualifiers (ASV/Model/SerialQual.lean) -/
+def qualText (j : Json) : R Json := do
+  match ← strF j "kind" with
+  | "format" =>
+    let fmt ← strF j "fmt"
+    return jObj [("modelled", toJson (fmtToks fmt.toList).isSome),
+                 ("groups", optToJson jStrs (parseFormat fmt (← strF j "data")))]
+  | "genefn" =>
+    return jObj [("parsed", eToJson annotToJson (Annot.fromStr (← strF j "text")))]
+  | "genefns" =>
+    -- GeneFunctionAnnotations built with add(), written, read back with add_from_qualifier()
+    let raw ← listOf annotOfJson (← fld j "annots")
+    let built : E (List Annot) := raw.foldlM (fun l (f, t, d, p) =>
+      match GeneFn.ofLabel f with
+      | some fn => annAdd l fn t d p
+      | none => throw "value-error") []
+    let quals : E Quals := do pure (annQuals (← built))
+    let back : E (List Annot) := do annFromQualifier [] ((Q.get? (← quals) "gene_functions").getD [])
+    let again : E Quals := do pure (annQuals (← back))
+    return jObj [("built", eToJson (fun l => jArr (l.map annotToJson)) built), ("quals", eToJson qualsToJson quals),
+                 ("back", eToJson (fun l => jArr (l.map annotToJson)) back), ("again", eToJson qualsToJson again),
+                 ("same", toJson (match built, back with | .ok a, .ok b => a == b | _, _ => false)),
+                 ("scope", toJson (match built with | .ok l => l.all (fun a => a.wf && a.textSafe) | _ => false))]
+  | "secmet" =>
+    let ds ← listOf smOfJson (← fld j "domains")
+    let built := smAdd [] ds
+    let strs := built.map SMDom.toStr
+    let back := smFromQualifier strs
+    return jObj [("built", jArr (built.map smToJson)), ("strs", jStrs strs),
+                 ("back", eToJson (fun l => jArr (l.map smToJson)) back),
+                 ("same", toJson (match back with | .ok b => b == built | _ => false)),
+                 ("scope", toJson (built.all (·.textSafe)))]
+  | k => throw s!"C10: unknown qualtext kind {k}"
+
+
 def handle (j : Json) : R Json := do
   let f ← strF j "f"
   match f with
@@ -182,6 +229,7 @@ def handle (j : Json) : R Json := do
                  ("orig_merged", locToJson (mergeAdjoining l)),
                  ("model_merged", optToJson (fun (r : Loc) => locToJson (mergeAdjoining r)) rr),
                  ("scope", toJson (ProtDna.geneWF l && decide (0 ≤ ld) && decide (0 ≤ tl) && decide (ld + tl < l.len / 3)))]
+  | "qualtext" => qualText j
   | "read" =>
     -- `Record.from_biopython` on an arbitrary feature list
     let bios ← listOf bioOfJson (← fld j "bios")
